@@ -892,6 +892,36 @@ fn silhouette<L: Lab>(p: &P) -> Fingerprint {
     f
 }
 
+/// Mirror-image clusters: clusters 1 and 2 are reflections of each other about cluster 0 with
+/// their rows in opposite order, so a sample of cluster 0 is equidistant from both in exact
+/// arithmetic while the two mean distances are summed in different orders (near-ties, one ulp
+/// apart) - where "the nearest other cluster" must not depend on the order clusters are visited in.
+fn silhouette_mirrored<L: Lab>(p: &P) -> Fingerprint {
+    let m = p.pick(5, 17, 60);
+    let mut r = p.rng(52);
+    let c0: Vec<[f64; 2]> = (0..m).map(|_| [0.3 * r.normal(), 0.0]).collect();
+    let c1: Vec<[f64; 2]> = (0..m).map(|_| [0.7 * r.normal(), 3.0 + 0.9 * r.normal()]).collect();
+    let mut rows: Vec<([f64; 2], usize)> = Vec::new();
+    rows.extend(c0.iter().map(|v| (*v, 0)));
+    rows.extend(c1.iter().map(|v| (*v, 1)));
+    rows.extend(c1.iter().rev().map(|v| ([v[0], -v[1]], 2)));
+    // a fourth cluster far away so that more than two candidates exist
+    rows.extend((0..m).map(|i| ([40.0 + i as f64, 0.5], 3)));
+    let n = rows.len();
+    let x = Array2::from_shape_fn((n, 2), |(i, j)| rows[i].0[j]);
+    let labels = Array1::from_shape_fn(n, |i| L::conv(rows[i].1));
+    let mut f = Fingerprint::new();
+    match DatasetBase::new(x.clone(), labels.clone()).silhouette_score() {
+        Ok(v) => f.one("f64", v),
+        Err(e) => f.err("f64", &e),
+    }
+    match DatasetBase::new(data::to_f32(&x), labels).silhouette_score() {
+        Ok(v) => f.one("f32", v),
+        Err(e) => f.err("f32", &e),
+    }
+    f
+}
+
 fn corr_data(p: &P) -> Array2<f64> {
     let (n, d) = p.pick((12, 3), (200, 5), (1000, 6));
     let mut r = p.rng(61);
@@ -1472,6 +1502,8 @@ pub fn register(r: &mut Registry) {
     r.scenario("core_metrics_regression", K, Kind::Claim, false, regression_metrics);
     r.scenario("core_metrics_silhouette_usize", K, Kind::Claim, false, silhouette::<usize>);
     r.scenario("core_metrics_silhouette_string", K, Kind::Claim, false, silhouette::<String>);
+    r.scenario("core_metrics_silhouette_mirrored_usize", K, Kind::Claim, false, silhouette_mirrored::<usize>);
+    r.scenario("core_metrics_silhouette_mirrored_string", K, Kind::Claim, false, silhouette_mirrored::<String>);
     r.scenario("core_metrics_pearson", K, Kind::Claim, false, pearson);
     r.scenario("core_pvalues_control", K, Kind::ControlEntropy, false, pvalues_control);
     r.scenario("core_platt_newton", K, Kind::Claim, false, platt_newton);
